@@ -162,6 +162,12 @@ J gen_world(uint64_t seed, const J &opts)
 	J cfg = J::obj();
 	static const std::vector<long long> RF = {1, 2, 10, 60, 3600, 86400}, RT = {1, 3, 60, 600, 7200}, EX = {600, 601, 900, 7200, 172800};
 	long long refresh = g.pick(RF), retry = g.pick(RT), expire = g.pick(EX);
+	bool fast = opts.geti("fast_intervals", 0) != 0; // short, sane timers: the C08 bound is reached within the step budget
+	if (fast) {
+		refresh = g.pick(std::vector<long long>{10, 30, 60});
+		retry = g.pick(std::vector<long long>{1, 3, 10});
+		expire = g.pick(std::vector<long long>{600, 601, 900});
+	}
 	cfg["refresh"] = refresh;
 	cfg["retry"] = retry;
 	cfg["expire"] = expire;
@@ -250,7 +256,11 @@ J gen_world(uint64_t seed, const J &opts)
 		c["keys"] = keys;
 		J iv = J::arr();
 		static const std::vector<long long> BV = {0, 1, 2, 599, 600, 601, 7200, 7201, 86400, 86401, 172800, 172801, 4294967295ll};
-		if (focus == "C17" || g.chance(150)) {
+		if (fast) {
+			iv.push(refresh);
+			iv.push(retry);
+			iv.push(expire);
+		} else if (focus == "C17" || g.chance(150)) {
 			iv.push(g.chance(700) ? g.pick(BV) : (long long)g.below(4294967296ull));
 			iv.push(g.chance(700) ? g.pick(BV) : (long long)g.below(4294967296ull));
 			iv.push(g.chance(700) ? g.pick(BV) : (long long)g.below(4294967296ull));
